@@ -27,7 +27,7 @@ def rand_template(rng, calm, r):
     t["kind"] = rng.choice(KINDS_TP)
     t["num"] = rng.choice([0, 1, 1, 2, 2, 3, 4])
     t["nc"] = rng.choice([1, 1, 2, 3])
-    t["gname"] = rng.choice([None, None, None, "grp-%d x" % r, "shared", ""])      # ("" is a legal explicit group name)
+    t["gname"] = rng.choice([None, None, None, "grp-%d %%s x" % r, "shared", ""])      # ("" is a legal explicit group name)
     t["bad"] = sorted({rng.randrange(0, max(1, t["num"])) for _ in range(rng.choice([0, 0, 0, 1, 2]))}) if not calm else []
     if rng.random() < 0.04:
         t["notcoro"] = True
